@@ -695,6 +695,16 @@ def setobs_case(template, sel_bits, menu):
     except Exception as exc:  # noqa: BLE001
         if not exception_origin_in_repo(exc):
             raise
+    # a call that is REFUSED (wrong number of values for the selection) stores nothing and marks nothing: the screen is used again
+    for wrong in ([0.5] * (sum(sel) + 1), [0.5] * (sum(sel) + 2)) + (([0.5] * (sum(sel) - 1),) if sum(sel) >= 3 else ()):
+        s3 = copy.deepcopy(template)
+        try:
+            s3.set_observed(np.array(sel, dtype=bool), np.array(wrong, dtype=float))
+        except Exception:  # noqa: BLE001
+            if fields(s3) != before:
+                bad.append(("C12|set_observed|refused-call-changed-screen",
+                            f"set_observed(selection {sel}, {len(wrong)} values) was refused, yet the screen changed: mask {[bool(x) for x in s3.observation_mask]} "
+                            f"(was {old_mask}), values {[float(x) for x in s3.observations]}"))
     exp_obs = list(old_obs)
     it = iter(vals)
     for i in range(n):
